@@ -26,6 +26,9 @@ impl Tier {
     }
 }
 
+/// per-shard cap on the set of distinct non-trivial case hashes (memory bound)
+pub const NONTRIVIAL_CAP: usize = 400_000;
+
 #[derive(Default)]
 pub struct Stats {
     /// executions of the code under test (rewriter runs, API call sequences)
@@ -72,6 +75,10 @@ impl Stats {
     /// Record a distinct non-trivial case (by hash of its content); returns true if new.
     pub fn nontrivial(&mut self, hash: u64) -> bool {
         if self.frozen {
+            return false;
+        }
+        if self.nontrivial.len() >= NONTRIVIAL_CAP {
+            // counted conservatively: distinct non-trivial cases beyond the cap are not counted
             return false;
         }
         self.nontrivial.insert(hash)
@@ -168,6 +175,7 @@ pub trait Prop: Sync {
 
 thread_local! {
     static LAST_PANIC: RefCell<Option<String>> = const { RefCell::new(None) };
+    static GUARD_DEPTH: std::cell::Cell<usize> = const { std::cell::Cell::new(0) };
 }
 
 pub fn install_quiet_panic_hook() {
@@ -180,6 +188,9 @@ pub fn install_quiet_panic_hook() {
         } else {
             "<non-string panic>".to_string()
         };
+        if GUARD_DEPTH.with(|d| d.get()) == 0 {
+            eprintln!("UNGUARDED PANIC: {msg} @ {loc}");
+        }
         LAST_PANIC.with(|p| *p.borrow_mut() = Some(format!("{msg} @ {loc}")));
     }));
 }
@@ -190,16 +201,19 @@ pub fn take_last_panic() -> String {
 
 /// Run `f`, turning a panic into `Err(message @ location)`.
 pub fn guard<T>(f: impl FnOnce() -> T) -> Result<T, String> {
-    match catch_unwind(AssertUnwindSafe(f)) {
+    GUARD_DEPTH.with(|d| d.set(d.get() + 1));
+    let r = catch_unwind(AssertUnwindSafe(f));
+    GUARD_DEPTH.with(|d| d.set(d.get() - 1));
+    match r {
         Ok(v) => Ok(v),
         Err(_) => Err(take_last_panic()),
     }
 }
 
 fn run_guarded(prop: &dyn Prop, tape: &[u16], st: &mut Stats) -> PResult {
-    match catch_unwind(AssertUnwindSafe(|| prop.run(tape, st))) {
+    match guard(|| prop.run(tape, st)) {
         Ok(r) => r,
-        Err(_) => Err(Failure::new(format!("harness/code panic outside a guarded call: {}", take_last_panic()))),
+        Err(p) => Err(Failure::new(format!("harness/code panic outside a guarded call: {p}"))),
     }
 }
 
@@ -333,7 +347,7 @@ fn shrink_more(prop: &dyn Prop, tape: Vec<u16>) -> Vec<u16> {
             while i + span <= cur.len() && budget > 0 {
                 let mut t = cur.clone();
                 t.drain(i..i + span);
-                budget -= 1;
+                budget = budget.saturating_sub(1);
                 if fails(&t) {
                     cur = t;
                     progress = true;
@@ -354,12 +368,12 @@ fn shrink_more(prop: &dyn Prop, tape: Vec<u16>) -> Vec<u16> {
                 continue;
             }
             for cand in [0u16, cur[i] / 2, cur[i] - 1] {
-                if cand >= cur[i] {
+                if cand >= cur[i] || budget == 0 {
                     continue;
                 }
                 let mut t = cur.clone();
                 t[i] = cand;
-                budget -= 1;
+                budget = budget.saturating_sub(1);
                 if fails(&t) {
                     cur = t;
                     progress = true;
